@@ -10,7 +10,13 @@ use serde_json::json;
 /// right) with a shadow vector of consumed operands; returns the value and the expected
 /// (op, left, right) steps
 pub fn model(n: usize, prio: &[i64]) -> (Sym, Vec<(usize, usize, usize)>) {
-    let mut vals: Vec<Option<Sym>> = (0..n).map(|i| Some(Sym::Var(i))).collect();
+    model_with((0..n).map(Sym::Var).collect(), prio)
+}
+
+/// the same for arbitrary operand values (repeated variables, literals)
+pub fn model_with(operands: Vec<Sym>, prio: &[i64]) -> (Sym, Vec<(usize, usize, usize)>) {
+    let n = operands.len();
+    let mut vals: Vec<Option<Sym>> = operands.into_iter().map(Some).collect();
     let mut order: Vec<usize> = (0..n - 1).collect();
     order.sort_by(|a, b| prio[*b].cmp(&prio[*a]));
     let mut consumed = vec![false; n];
@@ -148,6 +154,98 @@ fn chain_case(n: usize, prio: &[i64], kind: &str, st: &mut Stats) {
     }
 }
 
+/// The same chains with operands that are literals and variables in arbitrary textual order and
+/// with repetitions, evaluated by borrowing and by the consuming variants (which fill the
+/// operand array differently): the operand standing left and right of an operator must be the
+/// one the text puts there.
+fn chain_case_mixed(n: usize, prio: &[i64], kind: &str, st: &mut Stats) {
+    let names: Vec<&'static str> = NAMES.with(|v| v[..n - 1].to_vec());
+    let table: Table = (0..n - 1).map(|k| OpSpec::bin(names[k], (k % 64) as u8, prio[k], false)).collect();
+    install(&table);
+    let mut h: u64 = 0x9e37_79b9_7f4a_7c15 ^ (n as u64);
+    for p in prio {
+        h = (h ^ (*p as u64)).wrapping_mul(0x100_0000_01b3);
+    }
+    let mut rng = Rng::new(h, 14);
+    // flavour 0: distinct variables in shuffled order; 1: repeated variables; 2: repeated variables and literals
+    let flavour = rng.below(3);
+    let pool = match flavour {
+        0 => n,
+        _ => (n / 3).max(2),
+    };
+    let mut ids: Vec<usize> = (0..n).collect();
+    for i in (1..n).rev() {
+        ids.swap(i, rng.below(i + 1));
+    }
+    let operand: Vec<Option<usize>> = (0..n)
+        .map(|i| {
+            if flavour == 2 && rng.chance(1, 3) {
+                None
+            } else if flavour == 0 {
+                Some(ids[i])
+            } else {
+                Some(rng.below(pool))
+            }
+        })
+        .collect();
+    let mut used: Vec<usize> = operand.iter().flatten().copied().collect();
+    used.sort();
+    used.dedup();
+    let mut text = String::new();
+    let mut values = vec![];
+    for (i, o) in operand.iter().enumerate() {
+        match o {
+            None => {
+                text.push_str(&format!("{}", i + 1));
+                values.push(Sym::lit(&format!("{}", i + 1)));
+            }
+            Some(j) => {
+                text.push_str(&format!("{{w{j:04}}}"));
+                values.push(Sym::Var(used.iter().position(|u| u == j).unwrap()));
+            }
+        }
+        if i + 1 < n {
+            text.push_str(&format!(" {} ", names[i]));
+        }
+    }
+    let vals: Vec<Sym> = (0..used.len()).map(Sym::Var).collect();
+    let (want, _) = model_with(values, prio);
+    st.bump("cases");
+    st.bump(&format!("mixed_chains_{kind}"));
+    st.bump(["mixed_chains_shuffled_distinct_variables", "mixed_chains_repeated_variables", "mixed_chains_repeated_variables_and_literals"][flavour]);
+    for path in ["flat", "flat_vec", "flat_iter", "flat_wo_vec", "deep"] {
+        let r = catch(|| match path {
+            "flat" => FX::parse(&text).and_then(|e| e.eval(&vals)),
+            "flat_vec" => FX::parse(&text).and_then(|e| e.eval_vec(vals.clone())),
+            "flat_iter" => FX::parse(&text).and_then(|e| e.eval_iter(vals.clone().into_iter())),
+            "flat_wo_vec" => FX::parse_wo_compile(&text).and_then(|e| e.eval_vec(vals.clone())),
+            _ => DX::parse(&text).and_then(|e| e.eval(&vals)),
+        });
+        let problem = match r {
+            Err(m) => Some(format!("panic: {m}")),
+            Ok(Err(e)) => Some(format!("error: {}", e.msg())),
+            Ok(Ok(v)) => {
+                if v.has_hole() {
+                    Some("a moved-out placeholder stands where an operand should be".to_string())
+                } else if v != want {
+                    Some("final value is not the chain reduced in priority order over the operands of the text".to_string())
+                } else {
+                    None
+                }
+            }
+        };
+        if let Some(p) = problem {
+            let pr: Vec<String> = prio.iter().map(|p| p.to_string()).collect();
+            st.violation(
+                format!("mixed-chain|{path}|n={n}|{}|{}", pr.join(","), p.split(':').next().unwrap_or("")),
+                n,
+                json!({"kind": "mixed-chain", "path": path, "text": if text.len() < 400 { text.clone() } else { format!("{} ...", &text[..400]) }, "operands": n, "priorities": prio, "order_kind": kind, "problem": p}),
+            );
+            return;
+        }
+    }
+}
+
 fn permutations(n: usize, f: &mut dyn FnMut(&[usize])) {
     fn go(k: usize, a: &mut Vec<usize>, f: &mut dyn FnMut(&[usize])) {
         if k == a.len() {
@@ -269,6 +367,9 @@ pub fn run(ctx: &Ctx) -> i32 {
                 st.bump("exhaustive_permutations");
                 st.class(("perm", n, perm.to_vec()));
                 chain_case(n, &prio, "exhaustive", st);
+                if n >= 3 {
+                    chain_case_mixed(n, &prio, "exhaustive", st);
+                }
             });
         }
         // (b) structured and random orders around the word boundaries
@@ -287,6 +388,7 @@ pub fn run(ctx: &Ctx) -> i32 {
                     let (prio, name) = structured(kind, n - 1, rng);
                     st.class(("long", n, kind, rep));
                     chain_case(n, &prio, name, st);
+                    chain_case_mixed(n, &prio, name, st);
                 }
             }
         }
@@ -297,7 +399,7 @@ pub fn run(ctx: &Ctx) -> i32 {
         }
     });
     let mut report = Report::new(
-        "chains v0 o0 v1 ... whose per-operator priorities realise a chosen application order, over the term algebra; judged (a) on the final term, (b) on the reduction trace recorded by hook H1 in eval_binary (every step: nearest live operand left/right, nothing consumed twice, order imposed by the priorities, only operand 0 live at the end), for FlatEx (folded/unfolded), DeepEx and flat->deep; all permutations of up to 8 (quick) / 9 (thorough) operands; structured (ascending, descending, alternating, inside-out, outside-in, tie-heavy, all-equal) and random orders at lengths straddling 32/64/128/192/256 and 500/1000 operands; (c) the NumberTracker implementations (usize and [usize]) driven directly with random query/consume/ignore sequences against a Vec<bool> shadow. distinct_nontrivial = distinct (length, order) pairs.",
+        "chains v0 o0 v1 ... whose per-operator priorities realise a chosen application order, over the term algebra; judged (a) on the final term, (b) on the reduction trace recorded by hook H1 in eval_binary (every step: nearest live operand left/right, nothing consumed twice, order imposed by the priorities, only operand 0 live at the end), for FlatEx (folded/unfolded), DeepEx and flat->deep; the same orders over chains whose operands are shuffled, repeated variables and literals, evaluated from a slice and through eval_vec / eval_iter (which fill the operand array themselves); all permutations of up to 8 (quick) / 9 (thorough) operands; structured (ascending, descending, alternating, inside-out, outside-in, tie-heavy, all-equal) and random orders at lengths straddling 32/64/128/192/256 and 500/1000 operands; (c) the NumberTracker implementations (usize and [usize]) driven directly with random query/consume/ignore sequences against a Vec<bool> shadow. distinct_nontrivial = distinct (length, order) pairs.",
     )
     .require("exhaustive_permutations", 5000)
     .require("chains_gt64_operands", 50)
